@@ -252,19 +252,20 @@ def check_continuation_form(chk, pm):
         chk.ok('C10.J', 'continuation parts are stripped before joining (the first part keeps only its indentation)')
     else:
         chk.bad('C10.J', mod, 'parse_script', f'{len(appends)} stripped appends', 'every continuation part must be stripped of surrounding blanks before it is joined (first part: trailing blanks only)', node=loop)
-    # comment test first
-    first = next((s for s in loop.body if not isinstance(s, ast.Assign)), None)
-    if isinstance(first, ast.If) and pm.comment_regex and pm.comment_regex in norm(first.test) and len(first.body) == 1 and isinstance(first.body[0], ast.Continue):
+    # comment test: a top-level `if COMMENT.match(line): continue`; nothing before it may touch an accumulator
+    first = next((s for s in loop.body if isinstance(s, ast.If) and pm.comment_regex and pm.comment_regex in norm(s.test)
+                  and len(s.body) == 1 and isinstance(s.body[0], ast.Continue) and not s.orelse), None)
+    if first is not None:
         ix = loop.body.index(first)
-        before = [s for s in loop.body[:ix]]
-        touches = [s for s in before if any(isinstance(n, ast.Call) and isinstance(n.func, ast.Attribute) and n.func.attr in ('append', 'clear', 'pop') for n in ast.walk(s))]
+        touches = [s for s in loop.body[:ix] if any((isinstance(n, ast.Call) and isinstance(n.func, ast.Attribute) and n.func.attr in ('append', 'clear', 'pop', 'extend', 'insert'))
+                                                     or (isinstance(n, (ast.Assign, ast.AugAssign)) and any(isinstance(t, ast.Subscript) for t in (n.targets if isinstance(n, ast.Assign) else [n.target])))
+                                                     for n in ast.walk(s))]
         if not touches:
-            chk.ok('C10.O', 'comment / blank lines are skipped first, without touching the continuation accumulator')
+            chk.ok('C10.O', 'comment / blank lines are skipped by a top-level test of the line loop before any accumulator is touched')
         else:
-            chk.bad('C10.O', mod, 'parse_script', norm(touches[0])[:80], 'an accumulator is modified before the comment test', node=touches[0])
+            chk.bad('C10.O', mod, 'parse_script', norm(touches[0])[:80], 'an accumulator is modified before the comment test: a comment / blank line changes parser state', node=touches[0])
     else:
-        chk.bad('C10.O', mod, 'parse_script', norm(first)[:80] if first is not None else 'empty loop',
-                'the comment / blank-line test must come first in the line loop and simply skip the line: otherwise a comment inside a continued statement ends or joins it', node=first)
+        chk.note('C10.O: no top-level `if COMMENT.match(line): continue` in the line loop; comment transparency is decided by the E6 scenarios only')
 
 
 def normalise(model, lines):
@@ -292,7 +293,8 @@ def normalise(model, lines):
 
 def check_comment_insertion(chk, pm):
     shapes = constructs(2, 'some')
-    extra = [[('func', [B, ('while', [B, ('if', [[('break',)]], None)])], True), B]]
+    extra = [[('func', [B, ('while', [B, ('if', [[('break',)]], None)])], True), B],
+             [('include', 0), ('include', 1), ('include', 0)], [B, ('include', 0), ('include', 0), B], [('func', [('include', 1), ('include', 1), B], False)]]
     n = 0
     for item in [[s] for s in shapes[:60]] + extra:
         sh = Shape(pm)
